@@ -21,7 +21,9 @@ Rust:                                              Model:
   KeySetProvider::load(reader, history)              load bytes history : LoadOut  (ok / err kind / panic)
   KeySetProvider::store(&self, writer)               store p now : Option Bytes  (`none` = `.expect` on a
                                                        clock before 1970)
-  spawn(): load, `unwrap_or_else` fresh keys         startup file history fresh
+  spawn(): load, `unwrap_or_else` fresh keys         startup file history fresh;  startupAt (path kinds)
+  spawn(): store attempt at key-storage-path          storeOutcome, modeAfter (missing parent directory or a
+                                                       directory at the path: warn only, nothing is created)
 
 `load` models the code WITH the two proposed fixes (fixes/C27-*.patch); `loadUnfixed` is the code as found
 (`primary > len`, `SystemTime + Duration` overflow panic) and is only used for the counterexample theorems.
@@ -252,5 +254,44 @@ def startup (file : Option Bytes) (history : Nat) (freshKey : Bytes) : Start :=
     | .ok p t => .loaded p t
     | .err _ => .fresh (Provider.new history freshKey)
     | .panic => .abort
+
+/-! ### where the key file lives (`key-storage-path`) -/
+
+/-- what is at the configured path when the daemon starts -/
+inductive PathKind where
+  | missingParent   -- the parent directory does not exist (any number of levels)
+  | directory       -- the path names an existing directory
+  | absent          -- the parent directory exists, there is no file
+  | file            -- an existing regular file (any mode; the daemon only warns about o+rwx)
+deriving Repr, DecidableEq
+
+/-- outcome of one store attempt of `spawn`'s loop:
+    `OpenOptions::new().create(true).truncate(true).write(true).mode(0o600).open(path)` then `store`. -/
+inductive StoreFs where
+  | failed        -- `open` fails (`NotFound` for a missing parent, `IsADirectory`): the error is only logged
+                  -- (`warn!`), NO file and NO directory is created, the daemon keeps running with its keys in
+                  -- memory and tries again after the next rotation
+  | created       -- a new file, created with mode 0600 (the umask can only clear bits)
+  | overwritten   -- an existing file, truncated and rewritten; its mode is left as it was
+deriving Repr, DecidableEq
+
+def storeOutcome : PathKind → StoreFs
+  | .missingParent => .failed
+  | .directory => .failed
+  | .absent => .created
+  | .file => .overwritten
+
+/-- start of `spawn` for a path of the given kind: only an existing regular file gives `load` any bytes
+    (`File::open` fails for a missing file/parent; a directory opens but `read_exact` fails) -/
+def startupAt (k : PathKind) (content : Bytes) (history : Nat) (freshKey : Bytes) : Start :=
+  startup (if k = .file then some content else none) history freshKey
+
+/-- mode bits (octal digits as a number, e.g. 600) of the key file after the first store attempt, given
+    the mode an existing file had: a created file is rw-------, an existing one keeps its mode -/
+def modeAfter (k : PathKind) (existingMode : Nat) : Option Nat :=
+  match storeOutcome k with
+  | .failed => none
+  | .created => some 600
+  | .overwritten => some existingMode
 
 end NtpVerif.KeySet
